@@ -120,7 +120,9 @@ def run(prop, tier):
             rec["msg"] = str(e)[:100]
         recs.append(rec)
     vrecs = [{k: r[k] for k in ("id", "kind", "op", "in", "out", "exc")} for r in recs]
-    verdicts, vst = common.validate(prop, "untyped", "TraceTyped", vrecs, per_shard=500)
+    verdicts, vst = common.validate(prop, "untyped", "TraceTyped", vrecs, per_shard=500,
+                                    verdict_id=lambda v: v["verdict"]["id"])
+    verdicts = {k: v["verdict"] for k, v in verdicts.items()}
     rep.add_tlc(vst)
     rep.traces = len(recs)
     rep.evaluations = len(recs)
